@@ -54,6 +54,62 @@ CHECKS = {
         design_ref='DESIGN.md §3 C09',
         note=TB + 'root PV head being an element of the root list relies on C05.R3/R4.',
         technique='static: reaching-definition/interval clamp rule, loop-cycle and dominance rules, recursion measure rule'),
+    'C03': dict(
+        category='proof',
+        text='Restoration is a pairing property. Decides, on every path: per path class (castling K/Q, e.p., capture x '
+             'promotion) the board primitives of undo_move are the reversed inverses, per square, of do_move\'s, with the '
+             'right piece identities; counters and the side flip are inc/dec-paired exactly once on every path; every '
+             'overwritten field is saved before its first write, packed into MoveInfo and assigned back from the matching '
+             'accessor; every Position field do_* can write is covered; MoveInfo packer/accessors agree bit for bit and fit '
+             'their domains; every make on a shared Position reaches the matching unmake (same move, returned MoveInfo) on '
+             'all CFG paths; observers never write Position state. Order inside piece lists is not decided (not observable).',
+        design_ref='DESIGN.md §3 C03',
+        note=TB + 'A-EP (e.p. target empty, enemy pawn behind it), A-PROMO (promotions are pawn moves, from != to); primitives\' own consistency is C02.R1.',
+        technique='static: path-class effect pairing over CFG summaries, PACK layout extraction, PAIR path rule, who-may-write'),
+    'C04': dict(
+        category='proof',
+        text='Decides key maintenance: typestate abstract interpretation shows that at every exit of do_move, undo_move, '
+             'do_null_move and undo_null_move (entered in do_null_move\'s exit state) the castling key was set from the '
+             'rights after their last change and the e.p. key is cleared iff the square is NO_SQUARE and else its file; '
+             'side/piece keys change together with their fields inside the only functions allowed to write them; '
+             'HashKey::init and the incremental mutators use the same (component, table, index) triples and cover all '
+             'kinds x colours; pawn key purity; no history/counter reads; key = XOR of the five components. '
+             'Collision freedom is probabilistic and not decided.',
+        design_ref='DESIGN.md §3 C04',
+        note=TB + 'between do_null_move and undo_null_move only balanced make/unmake happens (C03.R3).',
+        technique='static: typestate abstract interpretation over CFGs, sibling-agreement (COVER) and who-may-write rules'),
+    'C11': dict(
+        category='proof',
+        text='Full for slider lookups and leaper/line tables under stated structural side conditions: the magic constants '
+             'are a perfect hash (or collide only on equal attack sets) for all 107 648 (square, relevant-subset) cases, '
+             'index bits fit rows; writer and reader use the same index expression on a subset of the mask; builders walk '
+             'exactly the right rays with the nearest-blocker choice matching each ray\'s direction sign; mask builders drop '
+             'the right edges; shift<> arms, run-time shift, knight/king/pawn compositions and both line tables match '
+             'geometry; init order; compiled witness for file/rank/square helpers.',
+        design_ref='DESIGN.md §3 C11',
+        note=TB + 'geometry of the 8x8 board implemented once in the checker; RAYS/MASK tables hold what their (structurally checked) builders compute.',
+        technique='static: exhaustive relation check over source constants (MAGIC), structural agreement rules, static_assert witness'),
+    'C16': dict(
+        category='proof',
+        text='Encoding: full — bit layouts of create_move/create_promotion/create_castling and from/to/promotion/castling '
+             'are extracted and compared (disjoint, same shifts, masks as wide as domains, castling codes round-trip) plus '
+             'a compiled witness over all 64x64x5 triples. Text and FEN: the printer tables and parser maps are shown '
+             'mutually inverse (file/rank letters, promotion letters both cases, four castling spellings, 12 piece '
+             'letters, KQkq, side letter, e.p. square, move-number formula for n<=10000); equality/FEN use the same four '
+             'components. The round trip of each concrete position follows from these with C02/C04 and is not enumerated.',
+        design_ref='DESIGN.md §3 C16',
+        note=TB + 'well-formed input text (A-WF).',
+        technique='static: PACK layout extraction, TABLE inverse relations over source literals, static_assert witness'),
+    'C20': dict(
+        category='proof',
+        text='Full under real arithmetic with monotone rounding: abstract interpretation (interval x monotonicity-in-own-'
+             'clock x linear bound c*clock) of calculateTime with its helpers inlined, over the whole input box of the '
+             'quantifier, proves result >= 0, result <= 0.7*timeleft[side], non-decreasing in timeleft[side]; every '
+             'integer operation/conversion carries a no-overflow obligation; consumer rule: the budget field is the '
+             'allotment for the side to move and later definitions can only lower it.',
+        design_ref='DESIGN.md §3 C20',
+        note=TB + 'floating expressions evaluated over the reals; transfer functions for exp/pow/min/max in checks/rules/arith.py.',
+        technique='static: abstract interpretation (intervals, monotonicity, linear bounds) over the AST'),
 }
 
 NOT_APPLICABLE = {
